@@ -1855,7 +1855,7 @@ Plan generate(const std::string& mode, uint64_t seed, uint64_t run) {
       op.set("nl", int(depthOf(v)));
     op.set("filter", toText(genFilter(r, &v, 0))).set("ffirst", r.chance(1, 2) ? 1 : 0);
     static const char* ks[] = {"cptr_n", "custom", "istream", "std", "astream"};
-    op.set("kinds", ks[r.below(5)]).set("pair", 1);
+    op.set("kinds", ks[r.below(5)]).set("pair", 1).set("chunks", chunkSpec(r));  // (streams deliver in seeded pieces)
     p.ops.push_back(op);
   } else if (mode == "stream") {
     Op op = mkop("stream");
